@@ -180,7 +180,10 @@ class C10(C.PipelineCheck):
                        '#[derive(Serialize, Deserialize)]\npub enum Kind { One, Two }\n' +
                        CMD + 'cmd(a: %s, b: Option<String>, k: Kind, bar: Bar, ch: tauri::ipc::Channel<i32>) -> i32 { 0 }\n' % ty_param + CMD + 'solo(ch: tauri::ipc::Channel<Bar>) {}\n' +
                        CMD + 'plain() {}\n')
-                tag = 'types:%s' % erase(skeleton(chain, ('leaf', 't')))
+                # role of the chain: a set or a Result constructor anywhere in it decides the outcome (the two recorded
+                # defect classes); deeper chains share the key of the depth-1 chain that fails for the same reason
+                role = next(((c,) for c in chain if c in ('hset', 'bset', 'result', 'result1')), chain)
+                tag = 'types:%s' % erase(skeleton(role, ('leaf', 't')))
             else:
                 v = C.sym_type_ident('v', p['n'])
                 holes['v'] = v
